@@ -78,7 +78,7 @@ theorem evalFn_state (env : Nat → Fn α ρ) (agg : List (Ret α × Nat) → Hi
     · have := branchStep_fold_state (evalFn env agg lowest fuel) (env fn)
         (fun cc => ⟨some ((lim.orElse fun _ => (c.getD ⟨none, 0, 1, 1⟩).limit).getD (.int 1)),
           (c.getD ⟨none, 0, 1, 1⟩).depth + 1, (c.getD ⟨none, 0, 1, 1⟩).precNum * cc,
-          (c.getD ⟨none, 0, 1, 1⟩).precDen * (srcs.map (·.total)).foldl (· * ·) 1⟩)
+          (c.getD ⟨none, 0, 1, 1⟩).precDen * srcTotal srcs⟩)
         c (branches srcs) (pure []) rfl
       revert this
       generalize (List.foldl _ _ _ : M Cell _) c = res
